@@ -627,14 +627,16 @@ type Guard struct {
 	Alt  [][]Guard // Cond == nil: a disjunction of conjunctions (from a branch on a flag set on several edges)
 }
 
-// boolPhiIf: block b ends in `if v` / `if !v` where v is a phi of b itself; returns the phi and whether the test is negated.
-func boolPhiIf(b *ssa.BasicBlock) (*ssa.Phi, bool, bool) {
-	if b == nil || len(b.Instrs) == 0 {
-		return nil, false, false
+// flagOutcomes: block b ends in an `if` whose condition is decided by the edge through which b was entered: the
+// condition is (the negation of) a phi of b, or compares a phi of b with a constant. Returns, per predecessor, 1 when
+// the condition is true on entry from it, 0 when false, -1 when that edge's value does not decide it.
+func flagOutcomes(b *ssa.BasicBlock) ([]int, bool) {
+	if b == nil || len(b.Instrs) == 0 || len(b.Succs) != 2 {
+		return nil, false
 	}
 	iff, ok := b.Instrs[len(b.Instrs)-1].(*ssa.If)
 	if !ok {
-		return nil, false, false
+		return nil, false
 	}
 	v := iff.Cond
 	neg := false
@@ -646,59 +648,236 @@ func boolPhiIf(b *ssa.BasicBlock) (*ssa.Phi, bool, bool) {
 		}
 		break
 	}
-	phi, ok := v.(*ssa.Phi)
-	if !ok || phi.Block() != b {
-		return nil, false, false
+	out := make([]int, len(b.Preds))
+	for i := range out {
+		out[i] = -1
 	}
-	return phi, neg, true
-}
-
-// phiEdgeConst: the boolean constant phi takes when its block is entered from pred (if it is one).
-func phiEdgeConst(phi *ssa.Phi, pred *ssa.BasicBlock) (bool, bool) {
-	for k, p := range phi.Block().Preds {
-		if p == pred && k < len(phi.Edges) {
-			if cst, ok := phi.Edges[k].(*ssa.Const); ok && cst.Value != nil && cst.Value.Kind() == constant.Bool {
-				return constant.BoolVal(cst.Value), true
+	flip := func(x int) int {
+		if x < 0 || !neg {
+			return x
+		}
+		return 1 - x
+	}
+	any := false
+	if phi, ok := v.(*ssa.Phi); ok && phi.Block() == b {
+		for k := range b.Preds {
+			if k < len(phi.Edges) {
+				if cst, ok := phi.Edges[k].(*ssa.Const); ok && cst.Value != nil && cst.Value.Kind() == constant.Bool {
+					out[k] = 0
+					if constant.BoolVal(cst.Value) {
+						out[k] = 1
+					}
+					out[k] = flip(out[k])
+					any = true
+				}
 			}
-			return false, false
+		}
+		return out, any
+	}
+	bo, ok := v.(*ssa.BinOp)
+	if !ok || (bo.Op != token.EQL && bo.Op != token.NEQ) {
+		return nil, false
+	}
+	var phi *ssa.Phi
+	var other *ssa.Const
+	for _, pr := range [][2]ssa.Value{{bo.X, bo.Y}, {bo.Y, bo.X}} {
+		if p, ok := pr[0].(*ssa.Phi); ok && p.Block() == b {
+			if k, ok := pr[1].(*ssa.Const); ok {
+				phi, other = p, k
+			}
 		}
 	}
-	return false, false
+	if phi == nil {
+		return nil, false
+	}
+	for k := range b.Preds {
+		if k >= len(phi.Edges) {
+			continue
+		}
+		eq := -1
+		e := phi.Edges[k]
+		if cst, ok := e.(*ssa.Const); ok {
+			switch {
+			case cst.IsNil() && other.IsNil():
+				eq = 1
+			case cst.IsNil() != other.IsNil():
+				eq = 0
+			case cst.Value != nil && other.Value != nil && cst.Value.Kind() == other.Value.Kind():
+				eq = 0
+				if constant.Compare(cst.Value, token.EQL, other.Value) {
+					eq = 1
+				}
+			}
+		} else if other.IsNil() && (knownNonNil(e, 0) || nilTestedOnEdge(e, b.Preds[k], b) == 0) {
+			eq = 0
+		} else if other.IsNil() && nilTestedOnEdge(e, b.Preds[k], b) == 1 {
+			eq = 1
+		}
+		if eq >= 0 {
+			r := eq
+			if bo.Op == token.NEQ {
+				r = 1 - eq
+			}
+			out[k] = flip(r)
+			any = true
+		}
+	}
+	return out, any
 }
 
-// feasibleSuccs: successors of b when it was entered from `from`. A block that branches on a flag (a phi of boolean
-// constants, the shape left by `ok := false; if c { ok = true }; if ok {…}` and by an expanded helper that returns
-// true/false) continues only on the side the flag selects.
-func feasibleSuccs(b, from *ssa.BasicBlock) []*ssa.BasicBlock {
-	if from == nil {
-		return b.Succs
+// nilTestedOnEdge: the conditions holding on the edge pred→succ include a test of e against nil: 1 = e is nil,
+// 0 = e is not nil, -1 = no such test.
+func nilTestedOnEdge(e ssa.Value, pred, succ *ssa.BasicBlock) int {
+	for _, g := range edgeGuardList(pred, succ, 2) {
+		bo, ok := g.Cond.(*ssa.BinOp)
+		if !ok || (bo.Op != token.EQL && bo.Op != token.NEQ) {
+			continue
+		}
+		for _, pr := range [][2]ssa.Value{{bo.X, bo.Y}, {bo.Y, bo.X}} {
+			if k, isC := pr[1].(*ssa.Const); isC && k.IsNil() && pr[0] == e {
+				isNil := (bo.Op == token.EQL) == g.Pol
+				if isNil {
+					return 1
+				}
+				return 0
+			}
+		}
 	}
-	phi, neg, ok := boolPhiIf(b)
-	if !ok || len(b.Succs) != 2 {
-		return b.Succs
-	}
-	v, known := phiEdgeConst(phi, from)
-	if !known {
-		return b.Succs
-	}
-	if v != neg {
-		return b.Succs[:1]
-	}
-	return b.Succs[1:2]
+	return -1
 }
 
-func isThreaded(b *ssa.BasicBlock) bool {
-	phi, _, ok := boolPhiIf(b)
-	if !ok {
+// knownNonNil: v cannot be nil (freshly made values, non-nil by construction; a call that hands back one of its
+// arguments, or errors.New / fmt.Errorf).
+func knownNonNil(v ssa.Value, depth int) bool {
+	if depth > 4 {
 		return false
 	}
-	for _, p := range b.Preds {
-		if _, known := phiEdgeConst(phi, p); known {
+	switch x := v.(type) {
+	case *ssa.MakeInterface, *ssa.Alloc, *ssa.MakeClosure, *ssa.MakeMap, *ssa.MakeChan, *ssa.MakeSlice, *ssa.Function, *ssa.FieldAddr, *ssa.IndexAddr, *ssa.Global:
+		return true
+	case *ssa.ChangeInterface:
+		return knownNonNil(x.X, depth+1)
+	case *ssa.ChangeType:
+		return knownNonNil(x.X, depth+1)
+	case *ssa.Phi:
+		for _, e := range x.Edges {
+			if !knownNonNil(e, depth+1) {
+				return false
+			}
+		}
+		return len(x.Edges) > 0
+	case *ssa.Call:
+		switch calleeName(&x.Call) {
+		case "errors.New", "fmt.Errorf":
 			return true
+		}
+		if g := staticCallee(&x.Call); g != nil && g.Blocks != nil && g.Signature.Results().Len() == 1 {
+			if k, ok := identityReturn(g); ok {
+				args := x.Call.Args
+				if k < len(args) {
+					return knownNonNil(args[k], depth+1)
+				}
+			}
 		}
 	}
 	return false
 }
+
+// identityReturn: every return of g returns its parameter k unchanged.
+func identityReturn(g *ssa.Function) (int, bool) {
+	k := -1
+	ok := true
+	n := 0
+	eachInstr(g, func(i ssa.Instruction) {
+		ret, isR := i.(*ssa.Return)
+		if !isR || len(ret.Results) != 1 || (g.Recover != nil && i.Block() == g.Recover) {
+			return
+		}
+		n++
+		p, isP := ret.Results[0].(*ssa.Parameter)
+		if !isP {
+			ok = false
+			return
+		}
+		for idx, q := range g.Params {
+			if q == p {
+				if k >= 0 && k != idx {
+					ok = false
+				}
+				k = idx
+			}
+		}
+	})
+	return k, ok && n > 0 && k >= 0
+}
+
+// feasibleSuccs: successors of b when it was entered from `from`. A block that branches on a flag (a phi of boolean
+// constants, the shape left by `ok := false; if c { ok = true }; if ok {…}` and by an expanded helper that returns
+// true/false or an error) continues only on the side the flag selects.
+func feasibleSuccs(b, from *ssa.BasicBlock) []*ssa.BasicBlock {
+	if from == nil {
+		return b.Succs
+	}
+	oc, ok := flagOutcomes(b)
+	if !ok {
+		return b.Succs
+	}
+	for k, p := range b.Preds {
+		if p == from {
+			switch oc[k] {
+			case 1:
+				return b.Succs[:1]
+			case 0:
+				return b.Succs[1:2]
+			}
+			return b.Succs
+		}
+	}
+	return b.Succs
+}
+
+func isThreaded(b *ssa.BasicBlock) bool {
+	_, ok := flagOutcomes(b)
+	return ok
+}
+
+// refineAt: the value v has in block blk. A phi of a flag block whose branch side dominating blk can be entered
+// from exactly one predecessor is that predecessor's value.
+func refineAt(v ssa.Value, blk *ssa.BasicBlock) ssa.Value {
+	for depth := 0; depth < 4; depth++ {
+		phi, ok := v.(*ssa.Phi)
+		if !ok || blk == nil {
+			return v
+		}
+		d := phi.Block()
+		oc, isFlag := flagOutcomes(d)
+		if !isFlag {
+			return v
+		}
+		side := -1
+		if edgeDominates(d, 0, blk) {
+			side = 1
+		} else if edgeDominates(d, 1, blk) {
+			side = 0
+		}
+		if side < 0 {
+			return v
+		}
+		var cand []int
+		for k := range d.Preds {
+			if oc[k] == side || oc[k] < 0 {
+				cand = append(cand, k)
+			}
+		}
+		if len(cand) != 1 || cand[0] >= len(phi.Edges) {
+			return v
+		}
+		v = phi.Edges[cand[0]]
+	}
+	return v
+}
+
+func (c *Ctx) ExprAt(v ssa.Value, blk *ssa.BasicBlock) string { return c.Expr(refineAt(v, blk)) }
 
 // edgeGuardList: guards that hold when control goes from pred to succ.
 func edgeGuardList(pred, succ *ssa.BasicBlock, depth int) []Guard {
@@ -768,26 +947,31 @@ func guardsOfD(b *ssa.BasicBlock, depth int) []Guard {
 			continue
 		}
 		// a branch on a flag: state the conditions under which the flag has the value this side needs
-		if phi, neg, isFlag := boolPhiIf(d); isFlag && depth < 3 {
-			want := (side == 0) != neg
+		if oc, isFlag := flagOutcomes(d); isFlag && depth < 3 {
+			want := 1
+			if side == 1 {
+				want = 0
+			}
 			var sets [][]Guard
 			unknown := false
-			for _, p := range d.Preds {
-				v, known := phiEdgeConst(phi, p)
-				if !known {
+			for k, p := range d.Preds {
+				if oc[k] < 0 {
 					unknown = true
-					break
 				}
-				if v == want {
+				if oc[k] == want || oc[k] < 0 {
 					sets = append(sets, edgeGuardList(p, d, depth))
 				}
 			}
-			if !unknown && len(sets) >= 1 {
+			if len(sets) >= 1 {
+				if unknown {
+					// an undecided edge keeps the test itself as a condition
+					add(Guard{Cond: iff.Cond, Pol: side == 0, If: iff})
+				}
 				if len(sets) == 1 {
 					for _, g := range sets[0] {
 						add(g)
 					}
-				} else {
+				} else if !unknown {
 					out = append(out, Guard{Alt: sets, If: iff})
 				}
 				continue
